@@ -16,6 +16,7 @@ def run(tier, seed):
                         builder_tie=True)
     headfrag.run(c, tier, seed, ("canon",))
     headfrag.run_entities(c, tier, seed, ("canon",))
+    headfrag.run_mixed(c, tier, seed, ("canon",))
     c.assumptions += ["that the tokenizers emit canonical streams is validated by testing, not proved (PARTIAL, see DESIGN.md C14)"]
     return c.finish()
 
